@@ -387,3 +387,38 @@ def material_families(seed=0, per_sig=2):
                 out.append(("material:%s-%s" % (w or "0", b or "0"), board_to_fen(g, turn, None, None)))
                 made += 1
     return out
+
+
+def mate_hunt_positions(seed, n):
+    """random sparse positions (two kings, 1-5 more pieces, kings drawn to the edges, side not to move not in check): about 2.6 % have a
+    mate in one, 4.2 % a mate in two, 5.2 % an avoidable mate-in-one threat"""
+    import random
+    rng = random.Random(seed * 7919 + 13)
+    out = []
+    edge = lambda: rng.choice([(0, rng.randrange(8)), (7, rng.randrange(8)), (rng.randrange(8), 0), (rng.randrange(8), 7)])
+    while len(out) < n:
+        g = {}
+        sqs = [(r, f) for r in range(8) for f in range(8)]
+        rng.shuffle(sqs)
+        it = iter(sqs)
+        wk = next(it)
+        if rng.random() < 0.6:
+            wk = edge()
+        bk = next(x for x in it if max(abs(x[0] - wk[0]), abs(x[1] - wk[1])) > 1 and x != wk)
+        if rng.random() < 0.6:
+            cand = edge()
+            if max(abs(cand[0] - wk[0]), abs(cand[1] - wk[1])) > 1:
+                bk = cand
+        g[wk], g[bk] = "K", "k"
+        for _ in range(rng.choice([1, 2, 2, 3, 3, 4, 5])):
+            ch = rng.choice("QRRBNPQRqrrbnpqr")
+            sq = next((x for x in it if x not in g and not (ch in "Pp" and x[0] in (0, 7))), None)
+            if sq is None:
+                break
+            g[sq] = ch
+        turn = rng.choice("wb")
+        victim = bk if turn == "w" else wk
+        if any(ch.isupper() == (turn == "w") and sq != victim and _attacks_sq(g, sq, ch, victim) for sq, ch in g.items()):
+            continue
+        out.append(board_to_fen(g, turn, None, None))
+    return out
